@@ -469,6 +469,7 @@ func (p *Package) newValueDecl(
 						pos, pos, "%s redeclared in this block\n\tprevious declaration at %v", name, oldpos)
 				}
 			}
+			p.useName(name) // an import must not be given this name (declarations with an initialiser do this in endInit)
 		}
 	}
 	spec.Names = nameIdents
